@@ -546,12 +546,12 @@ example : handle { inMulti := true, cmds := [pc [b "INCR", b "k1"]] } db0 2000 [
     = ({ inMulti := true, cmds := [pc [b "INCR", b "k1"]] }, db0, [.err (b "ERR wrong number of arguments ()")]) :=
   unparsable_not_queued _ db0 2000 _ .invalidArgNum (by decide +kernel)
 
-/-- an OUT-OF-DOMAIN block (INCRBYFLOAT of "7" by 2^50: the sum has 16 significant digits, outside the numeric domain of the model): the wire model stops at
+/-- an OUT-OF-DOMAIN block (`LRANGE k2 0 9223372036854775807`: SQLite's 64-bit `stop - start + 1` overflows, outside the arithmetic domain of the model): the wire model stops at
 it without a claim (here: tables unchanged, only the header), the reference goes on and keeps the
 SET. So (phase, tables) equality over sequences needs `InDomainRun`; the phase alone does not
 (`phase_is_own_history`). This is a limit of the MODEL, not an observation about the server. -/
 theorem ood_block_no_claim :
-    let st : ConnState := { inMulti := true, cmds := [pc [b "INCRBYFLOAT", b "k1", b "1125899906842624"], pc [b "SET", b "k1", b "v"]] }
+    let st : ConnState := { inMulti := true, cmds := [pc [b "LRANGE", b "k2", b "0", b "9223372036854775807"], pc [b "SET", b "k1", b "v"]] }
     OutOfDomain st db0 2000 [b "EXEC"] ∧ ¬ BlockFails st db0 2000 [b "EXEC"] ∧
     handle st db0 2000 [b "EXEC"] = ({}, db0, [.arrayHdr 2]) ∧
     (refStep (phaseOf st) db0 2000 .exec).2.1 ≠ db0 := by
